@@ -361,7 +361,9 @@ func (c13) Run(t *testing.T, tape *core.Tape, rcx *RunCtx) *core.Result {
 				consumed += rdB.Consumed()
 				reads += rdB.Reads
 			}
-			allowed := 20000 + 60*consumed + 50*int(reads) + 200*(len(got)+len(gotB))
+			// a parser that polls with timers while the consumer stalls spends steps in
+			// proportion to the simulated waiting time: 10000 steps per stalled second
+			allowed := 20000 + 60*consumed + 50*int(reads) + 200*(len(got)+len(gotB)) + int(stallTime.Seconds()*10000) + 100*stallCount
 			if sim.Steps > allowed {
 				return fmt.Sprintf("%d scheduler steps used, %d allowed for %d bytes handed over in %d reads and %d records delivered", sim.Steps, allowed, consumed, reads, len(got))
 			}
@@ -413,7 +415,7 @@ func (c13) Run(t *testing.T, tape *core.Tape, rcx *RunCtx) *core.Result {
 				for {
 					sim.Yield("consumer:before-receive")
 					if stalls && tape.Draw(5) == 4 {
-						d := []time.Duration{time.Millisecond, 300 * time.Millisecond, 2 * time.Second, time.Minute, time.Hour}[tape.Draw(5)]
+						d := []time.Duration{time.Millisecond, 50 * time.Millisecond, 300 * time.Millisecond, 2 * time.Second, 5 * time.Second}[tape.Draw(5)]
 						time.Sleep(d)
 						stallTime += d
 						stallCount++
